@@ -195,6 +195,16 @@ func verifC03Gen(r *verifC03Rng, mix int, maxPayload int) (vb verifC03Bundle, er
 	b.PrimaryBlock.SetCRCType(pick())
 	for i := range b.CanonicalBlocks {
 		b.CanonicalBlocks[i].SetCRCType(pick())
+		// block processing control flags (the builder's helpers set none): a block the receiver may DROP when it
+		// cannot process it, a replicated one - the CRC must be checked all the same
+		if b.CanonicalBlocks[i].TypeCode() != ExtBlockTypePayloadBlock {
+			switch r.intn(4) {
+			case 0:
+				b.CanonicalBlocks[i].BlockControlFlags |= RemoveBlock
+			case 1:
+				b.CanonicalBlocks[i].BlockControlFlags |= ReplicateBlock
+			}
+		}
 	}
 	var enc bytes.Buffer
 	if err = b.MarshalCbor(&enc); err != nil {
